@@ -127,6 +127,24 @@ func checkC16(c *Ctx) {
 						if drainsQueue(p, g, q) {
 							flushes[q] = in
 						}
+						// a generic drain helper: non-blocking receive on its channel parameter, called with the queue
+						for i, a := range call.Call.Args {
+							if f, _ := chanFieldOf(stripConv(a)); f != q || i >= len(g.Params) {
+								continue
+							}
+							prm := g.Params[i]
+							eachInstr(g, func(_ *ssa.BasicBlock, _ int, x ssa.Instruction) {
+								sel, isSel := x.(*ssa.Select)
+								if !isSel || sel.Blocking {
+									return
+								}
+								for _, st := range sel.States {
+									if stripConv(st.Chan) == ssa.Value(prm) && st.Dir == types.RecvOnly {
+										flushes[q] = in
+									}
+								}
+							})
+						}
 					}
 				}
 			}
